@@ -7,6 +7,9 @@ from vf.ref.tx_ref import Tx, compact, h256
 from vf.runner import Acc, filler
 
 PROPERTY = "C11"
+# E6: seq_ops() indices of the operations that are interrupted at every line (vf/seqexplore.interrupted); probes = the whole alphabet
+INTERRUPT_X = [1, 5]
+INTERRUPT_PROBES = None
 CONCUR_FILES = ('bits/bips/bip143.py', 'bits/tx.py', 'bits/utils.py')
 # (thread a, thread b), warm-up: indices into seq_ops() - the ordinary single-case checks run concurrently (vf/concur.py)
 CONCUR_SCEN = [((0, 1), ()), ((7, 8), (9,)), ((8, 8), (7,)), ((3, 5), (11,)), ((7, 8, 9), ())]   # the last one: three threads
@@ -21,6 +24,7 @@ ASSUMPTIONS = ["vf/ref/bip143_ref.py transcribes BIP143; scriptCode is passed pr
 OBLIGATIONS = {
     "concurrent_calls": "interleavings of two concurrent calls (single-case checks in two threads, cold and after warm-up calls)",
     "long_history": "operations executed in one long history (>= 1000 distinct operations, forward / forward / reverse)",
+    "interrupted_calls": "interruption points explored (an earlier call cut short by an asynchronous exception, then ordinary calls)",
     "history_sequences": "operation sequences (non-initial process states) explored",
     "long_structure": "a transaction with more than 1000 inputs or outputs",
     "single_index_ge_outputs": "SIGHASH_SINGLE with input index >= number of outputs",
@@ -114,6 +118,9 @@ def run_case(kind, case):
     if kind == "concurcase":
         from vf import concur
         return concur.replay_cases(run_case, PROPERTY, case, CONCUR_FILES)
+    if kind == "interrupted":
+        from vf import seqexplore
+        return seqexplore.replay_interrupted(run_case, case)
     if kind == "seq":
         from vf import seqexplore
         return seqexplore.replay(run_case, case)
@@ -145,7 +152,7 @@ def long_cases(seed):
 
 def jobs(tier, seed):
     from vf.runner import seq_jobs
-    return [{"name": f"msg/{sh}", "part": "msg", "shard": [sh, 16], "weight": 5} for sh in range(16)] + seq_jobs(2, weight=2) + __import__("vf.runner", fromlist=["x"]).long_jobs() + __import__("vf.runner", fromlist=["x"]).concur_jobs(len(CONCUR_SCEN)) + \
+    return [{"name": f"msg/{sh}", "part": "msg", "shard": [sh, 16], "weight": 5} for sh in range(16)] + seq_jobs(2, weight=2) + __import__("vf.runner", fromlist=["x"]).long_jobs() + __import__("vf.runner", fromlist=["x"]).interrupt_jobs(len(INTERRUPT_X)) + __import__("vf.runner", fromlist=["x"]).concur_jobs(len(CONCUR_SCEN)) + \
         [{"name": "long", "part": "long", "weight": 4}]
 
 
@@ -158,6 +165,11 @@ def run_job(job):
     if job["part"] == "longhist":
         from vf.runner import run_long_job, default_long_ops
         return run_long_job(job, default_long_ops(seq_ops, job), run_case)
+    if job["part"] == "interrupted":
+        from vf.runner import run_interrupt_job
+        ops = [o for o in seq_ops(dict(job, part="interrupted", shard=[0, 1]))]
+        probes = ops if INTERRUPT_PROBES is None else [ops[i] for i in INTERRUPT_PROBES]
+        return run_interrupt_job(job, [ops[i] for i in INTERRUPT_X], probes, run_case, CONCUR_FILES)
     if job["part"] == "seq":
         from vf.runner import run_seq_job
         return run_seq_job(job, seq_ops(job), run_case, depth=3 if job["tier"] == "quick" else 4)
